@@ -468,11 +468,34 @@ func c11Rollup(c *core.Ctx) {
 	nv := c.MustFn(rule, "l1infotreesync", "processor", "isNewValueForRollupExitTree")
 	if nv != nil {
 		okCmp := false
+		const wantCmp = "((*tree.Tree).GetLeaf(p.rollupExitTree.Tree, tx, (event.RollupID - const(1)), (*tree.Tree).GetLastRoot(p.rollupExitTree.Tree, tx)#0.Hash)#0 != event.ExitRoot)"
 		for _, rc := range core.ReturnCases(nv) {
 			s := sx.Of(rc.Values[0]).String()
-			if s == "((*tree.Tree).GetLeaf(p.rollupExitTree.Tree, tx, (event.RollupID - const(1)), (*tree.Tree).GetLastRoot(p.rollupExitTree.Tree, tx)#0.Hash)#0 != event.ExitRoot)" {
+			if s == wantCmp {
 				okCmp = true
 			}
+		}
+		if !okCmp {
+			// the stored leaf reaches the comparison through result temporaries of an expanded lookup helper: placeholders
+			// that travel with "not found" / an error never reach it
+			core.Instrs(nv, func(i ssa.Instruction) {
+				bo, isB := i.(*ssa.BinOp)
+				if !isB || bo.Op != token.NEQ {
+					return
+				}
+				sl := core.NewSymx()
+				bindLivePhis(sl, nv, bo)
+				if sl.Of(bo).String() == wantCmp {
+					// and the result is that comparison whenever the leaf was found: every other return case is a constant
+					all := true
+					for _, rc := range core.ReturnCases(nv) {
+						if len(rc.Values) == 2 && isNilConst(rc.Values[1]) && rc.Values[0] != ssa.Value(bo) && !isConstBool(rc.Values[0], true) {
+							all = false
+						}
+					}
+					okCmp = all
+				}
+			})
 		}
 		c.Decide(okCmp, rule, "l1infotreesync.(*processor).isNewValueForRollupExitTree#compare", nv.Pos(), "new ⇔ leaf(RollupID-1) under the last root != ExitRoot")
 	}
@@ -579,27 +602,11 @@ func c11Lookup(c *core.Ctx) {
 	}
 	t := s.Tables["l1info_leaf"]
 	c.Decide(t != nil && t.HasUnique("global_exit_root"), rule, "l1infotreesync.l1info_leaf#unique-ger", token.NoPos, "global_exit_root UNIQUE: lookup by GER is a function")
-	sx := core.NewSymx()
-	for _, q := range []struct{ fn, where, arg string }{
-		{"getInfoByIndexWithTx", "WHERE POSITION = $1", "index"},
-		{"GetInfoByGlobalExitRoot", "WHERE GLOBAL_EXIT_ROOT = $1", "(github.com/ethereum/go-ethereum/common.Hash).String(ger)"},
-	} {
-		fn := c.MustFn(rule, "l1infotreesync", "processor", q.fn)
-		if fn == nil {
-			continue
-		}
-		ok := false
-		core.Instrs(fn, func(i ssa.Instruction) {
-			if core.CallName(i) != "github.com/russross/meddler.QueryRow" {
-				return
-			}
-			a := core.AsCall(i).Args
-			stmt, _ := core.ConstString(a[2])
-			tk := " " + strings.Join(sqlTokensUpper(stmt), " ") + " "
-			ok = strings.Contains(tk, " FROM L1INFO_LEAF "+q.where+" ") && strings.Contains(sx.Of(a[3]).String(), "[const(0)]: "+q.arg+"}")
-		})
-		c.Decide(ok, rule, "l1infotreesync.(*processor)."+q.fn+"#statement", fn.Pos(), "lookup statement "+q.where+" bound to the argument")
-	}
+	// the lookups by index / GER select by exactly their argument (statement folded through helpers, see sqlq.go)
+	checkOrdered(c, rule, []orderedSpec{
+		{"l1infotreesync", "processor", "getInfoByIndexWithTx", "L1INFO_LEAF", "", []string{"POSITION = $1"}, nil, []string{"index"}},
+		{"l1infotreesync", "processor", "GetInfoByGlobalExitRoot", "L1INFO_LEAF", "", []string{"GLOBAL_EXIT_ROOT = $1"}, nil, []string{"(github.com/ethereum/go-ethereum/common.Hash).Hex(ger)"}},
+	})
 }
 
 // orderedQuery parses `SELECT ... FROM t [WHERE conj] ORDER BY k1 d, k2 d LIMIT 1`.
